@@ -85,7 +85,7 @@ def sys_run(ctx, N, warm, cs, legacy, qstep=1, sub=1024):
 def run(ctx):
     quick = ctx.tier == "quick"
     cat = BR.catalogue(ctx.tier)
-    names = ["A", "B", "C2", "E"] if quick else list(cat)
+    names = ["A", "B", "C2", "E", "A3"] if quick else list(cat)
     ctx.rule = ("(a) every behaviour generated from BrownianImpl replayed on the real object (exception / cache length); "
                 "(b) solver-shaped runs of n steps forward and backward with the real warm-up, sampling Python frame "
                 "depth and cache length; (c) sdeint with default / dyadic Brownian motion; case = (configuration, "
